@@ -25,10 +25,10 @@ def isUr : Mic → Bool
   | _ => false
 /-- call sites of the wait loops and their exits -/
 def loopish : K → Bool
-  | .sL | .sOk | .sClosed | .rL | .rL2 | .rOk | .rDisc => true
+  | .sL | .sOk | .sClosed | .rL | .rL2 | .rOk | .rDisc | .rTo => true
   | _ => false
 def exitK : K → Bool
-  | .sOk | .sClosed | .rOk | .rDisc => true
+  | .sOk | .sClosed | .rOk | .rDisc | .rTo => true
   | _ => false
 
 /-- lock / gate / slot discipline -/
